@@ -223,17 +223,24 @@ def pullIns : Nat → Parser → Parser × PullRes
     | .eop => pullIns fuel { p with comp := { p.comp with meth := none } }
     | r => (p, r)
 
+/-- the rest of `echs_evical_pull`: an event whose METHOD (or REQUEST-STATUS) gives no verb is passed over and the
+parse goes on in the same buffer (callers take the unknown verb for `need more data') -/
+def pullEv : Nat → Parser → Parser × PullRes
+  | 0, p => (p, .need)
+  | fuel+1, p =>
+    let (p, r) := pullIns (p.buf.length + 2) p
+    match r with
+    | .ve ls => if verbOf p.comp.meth ls == "X" then pullEv fuel p else (p, .ve ls)
+    | r => (p, r)
+
 /-- the callers' loop after one push: pull while instructions keep coming -/
 def drain : Nat → Parser → List Instr → Parser × List Instr
   | 0, p, acc => (p, acc)
   | fuel+1, p, acc =>
-    let (p, r) := pullIns (p.buf.length + 2) p
+    let (p, r) := pullEv (p.buf.length + 2) p
     match r with
     | .need | .eop => (p, acc)
-    | .ve ls =>
-      let v := verbOf p.comp.meth ls
-      if v == "X" then (p, acc)                    -- verb unknown: the caller's loop ends
-      else drain fuel p (acc ++ [{ verb := v, lines := ls }])
+    | .ve ls => drain fuel p (acc ++ [{ verb := verbOf p.comp.meth ls, lines := ls }])
 
 /-- the whole protocol over a chunking of the input; returns the instructions and the log of lines acted upon -/
 def feed (chunks : List (List Byte)) : List Instr × List (List Byte) :=
@@ -250,7 +257,7 @@ def feed (chunks : List (List Byte)) : List Instr × List (List Byte) :=
   match p with
   | none => (ins, [])
   | some q =>
-    let (q, r) := pullIns (q.buf.length + 2) q
+    let (q, r) := pullEv (q.buf.length + 2) q
     match r with
     | .ve ls => (if verbOf q.comp.meth ls == "S" then ins ++ [{ verb := "L", lines := ls }] else ins, q.log)
     | _ => (ins, q.log)
